@@ -13,7 +13,7 @@ RULE = ("Same generated concurrent histories as C01, biased to small limits (max
 PROP = Prop(
     "C04", level="exploration", rule=RULE,
     layers=[Layer("histories", strategy=lambda: scenarios(max_callers=5, limits=(1, 1, 2, 2, 3)), execute=make_execute("C04"),
-                  budget={"quick": 3000, "thorough": 120000})],
+                  budget={"quick": 3000, "thorough": 60000})],
     assumptions=["pool.connections is sampled at every op boundary of the simulated network and at every quiescence",
                  "a stream still being established counts against the limit (it is reachable from no evicted connection)"],
     explanation="Schedule space sampled; the bound is checked at every op boundary of every run (coverage.metrics.monitor_checks).",
